@@ -58,6 +58,20 @@ def gen_cases(rng, n_random, tier):
             for base in (as_of - 1000, as_of, as_of + 5 * NS, void):
                 for d in (-1, 0, 1):
                     add(mk(as_of, void, bound, drift, st, real, base + d), "threshold")
+    # ... the same thresholds for records whose as-of lies where binary64 seconds lose nanoseconds (uptimes from 2^23 s,
+    # 97 days) and in the seconds just below a power of two: the comparisons are exact at every uptime
+    for _ in range(max(12, n_random // 100)):
+        sec = rng.choice([2 ** 23 + rng.randrange(10 ** 6), 2 ** 25 - rng.randrange(1, 6), 2 ** 30 + rng.randrange(1000), 2 ** 31 - 2000,
+                          2 ** rng.randrange(10, 31) - rng.randrange(1, 6), 1023, 1019, 33554427, 10 ** 9 + rng.randrange(10 ** 6)])
+        as_of = sec * NS + rng.choice([0, 1, 999999999, rng.randrange(NS)])
+        void = (sec + 1000) * NS
+        bound, drift = rng.randrange(10 ** 6), rng.choice([0, 1000, 50000])
+        real = rng.randrange(0, 2 * 10 ** 9) * NS + rng.randrange(NS)
+        for st in (1, 2):
+            for base in (as_of, as_of + 5 * NS, void):
+                for d in (-3, -1, 0, 1, 3):
+                    if 0 <= base + d < SECMAX * NS:
+                        add(mk(as_of, void, bound, drift, st, real, base + d), "threshold")
     # (b) elapsed x drift grid incl. products landing next to an integer
     for e in (0, 1, 999, NS - 1, NS, NS + 1, 290000000, 3600 * NS, 36000 * NS, 999 * NS):
         for d in (0, 1, 100, 999, 1000, 10 ** 6, 10 ** 9 - 1):
@@ -163,6 +177,8 @@ def parse_result(line):
         v = [int(x) for x in t[1:]]
         return {"kind": "ok", "e": v[0] * NS + v[1], "l": v[2] * NS + v[3], "status": v[4], "norm": 0 <= v[1] < NS and 0 <= v[3] < NS}
     if t[0] == "err":
+        if len(t) > 2:
+            return {"kind": "other", "raw": line}       # an error reported with something it should not carry (e.g. an errno)
         return {"kind": t[1]}
     if t[0] == "panic":
         return {"kind": "panic"}
@@ -299,6 +315,10 @@ def run_property(pid, res, proofs_ok, proofs_why, only=None):
             if ri["kind"] == "hang":
                 bad.append({"case": line, "profile": prof, "impl": "no return within 5 s", "model": model[i],
                             "why": ["now() did not return: a client call must complete after a bounded amount of work whatever the segment holds"]})
+                continue
+            if ri["kind"] == "other" and "with-errno" in impl[i] and pid == "C14":
+                bad.append({"case": line, "profile": prof, "impl": impl[i], "model": model[i], "calls_before": lines[max(0, i - 3):i],
+                            "why": ["the call reports: %s (the model: %s) - the error kinds of now() come without an errno: no system call failed" % (impl[i], model[i])]})
                 continue
             if ri["kind"] == "other":
                 diffs.append({"case": line, "profile": prof, "impl": impl[i], "model": model[i], "note": "shm crate and client library disagree"})
